@@ -159,6 +159,15 @@ def contract_chain(case):
                     f"{case}: str gives {got!r}, plain-string chain gives {s!r}")
         if len(x) != len(s) or "".join(str(c) for c in x) != s:
             return ("fail", f"chain/{'new' if new else 'old'}/len-iter", f"{case}: len/iter disagree with {s!r}")
+        # integer indexing, from both ends
+        for i_ in range(-len(s), len(s)):
+            try:
+                ch = str(x[i_])
+            except Exception as e:
+                return ("fail", f"chain/{'new' if new else 'old'}/getitem-int/raises", f"{case}: view {s!r}[{i_}] raises {type(e).__name__}: {e}")
+            if ch != s[i_]:
+                return ("fail", f"chain/{'new' if new else 'old'}/getitem-int/{'negative' if i_ < 0 else 'non-negative'}-index",
+                        f"{case}: view {s!r}[{i_}] gives {ch!r}, the string gives {s[i_]!r}")
         if op[0] in ("rna", "dna") and mt2 != cur_mt_before:
             # a moltype conversion builds a new sequence: its parent is the converted string itself
             root, root_off, rooted_len = s, int(getattr(x, "annotation_offset", 0) or 0), len(s)
